@@ -122,7 +122,7 @@ def main(tier: str) -> int:
     for beh in behs:
         labels = [l for l, _ in beh[1:] if l != 'Terminated']
         st0 = beh[0][1]
-        env = 'plain' if not st0['stls'] else 'tlsremote'
+        env = 'plain' if not st0['stls'] else ('tlslocal' if st0['mechs'] else 'tlsremote')
         cc.run_labels(ex, env, labels, 'simulate')
     run.notes['simulated_behaviours'] = len(behs)
     for i in range(200 if quick else 5000):
